@@ -940,6 +940,30 @@ func (x *g) genResponses(sv *spec.Service, m *spec.Method) {
 						tagged := &spec.HTTPResponse{Status: statuses[pi], TagAttr: a.Name, TagValue: vals[pi]}
 						tagged.Headers = append([]spec.Loc(nil), r.Headers...)
 						tagged.Cookies = append([]spec.Loc(nil), r.Cookies...)
+						// an explicit body that does not carry the tag attribute (the client restores it from the response
+						// selected): Body(Empty) or Body("other"); only when everything dropped is optional without default
+						if !isView && !rt.IsRequired(a.Name) && x.chance(1, 2) {
+							var rest []*spec.Attr
+							clean := true
+							for _, b := range rt.Attrs {
+								if b.Name == a.Name || inLocs(r.Headers, b.Name) || inLocs(r.Cookies, b.Name) {
+									continue
+								}
+								rest = append(rest, b)
+								if rt.IsRequired(b.Name) || b.HasDef {
+									clean = false
+								}
+							}
+							switch {
+							case !clean:
+							case len(rest) > 0 && x.chance(1, 2):
+								tagged.Body = "attr:" + rest[x.r.Intn(len(rest))].Name
+								x.s.AddFeature("tagged-response-explicit-body", "response-body-attr")
+							default:
+								tagged.Body = "empty"
+								x.s.AddFeature("tagged-response-explicit-body", "response-body-empty")
+							}
+						}
 						h.Responses = append(h.Responses, tagged)
 						used++
 					}
